@@ -106,6 +106,10 @@ def check_sample(rep, pa, desc, cont, gts, pivot_type, sample, log, labels_id):
     n_gt = len(gts)
     binf, bsup = cont.bounds
     dist = cont.avg_length_unit / 2
+    # "half the average unit length": the library's statistic must be the mean duration of the reference's units
+    durs = [frac(u.segment.end) - frac(u.segment.start) for _, u in cont]
+    if not near(cont.avg_length_unit, sum(durs, Fraction(0)) / len(durs)):
+        bad.append(("avg-length-unit", "avg_length_unit %r is not the mean unit duration %r" % (cont.avg_length_unit, float(sum(durs, Fraction(0)) / len(durs)))))
     if not sample:
         bad.append(("empty-sample", "the sampled continuum is empty"))
     anns = list(sample.annotators)
